@@ -159,20 +159,26 @@ def rebuilds(P, R, H):
 
 
 def merge_delivery(P, R):
-    rv = P.need_fn('conf_replace_value')
-    hs = [s for s in rv.calls() if P.call_slot(s) == 'conf_node_base::hook']
-    obj = [s for s in hs if any(is_var(g[0], 'modified') for g in rv.guards(s.bid))]
-    R.ob('C17.GRD.1', len(obj) == 1, obj[0] if obj else rv, 'the object hook in the merge depends on the modified flag', key='object-hook')
-    mods = [t for t in rv.stores() if t.ev['k'] == 'store' and is_var(t.ev.get('lhs'), 'modified') and const_of(t.ev.get('rhs')) == 1]
-    for s in rv.calls('set_insert'):
-        if on_path(s.ev['args'][0], 'contents') and root_var(s.ev['args'][0]) is not None and root_var(s.ev['args'][0])['name'] == 'target':
-            R.ob('C17.GRD.1', rv.path_avoiding(s, lambda t: t in mods) is None, s, 'a spliced node marks the object modified', key='splice')
-    for bid in rv.reachable_blocks():
-        for e in rv.out[bid]:
-            r = rules.edge_rel(e)
-            if r and isinstance(r[0], dict) and r[0].get('k') == 'callref' and r[0].get('callee') == 'conf_replace_value' and r[1] == '!=' and const_of(r[2]) == 0:
-                R.ob('C17.GRD.1', any(t in mods for t in rv.block_sites(e.dst)), P.relloc((rv.blocks[bid].get('term') or {}).get('loc', '?')), 'a removed child marks the object modified', key='removal')
-                R.obligations[-1]['function'] = rv.name
+    """GRD.1: in the merge the object hook depends only on the membership flag, which is set on splice and on removal
+    (the rule body is C15's notification rule; only its object/splice/removal instances are recorded here)."""
+    from . import c15
+    from ..report import Remap
+
+    class _Only(object):
+        def __init__(self, R):
+            self.R = R
+
+        def ob(self, rule, ok, site, what, key=None, **k):
+            if key in ('predicate:object', 'splice->modified', 'removal->modified'):
+                return self.R.ob('C17.GRD.1', ok, site, what, key=key, **k)
+            return True
+
+        def floor(self, *a, **k):
+            pass
+
+        def __getattr__(self, n):
+            return getattr(self.R, n)
+    c15.notification(P, _Only(R))
     R.floor('C17.GRD.1', 4)
 
 
